@@ -103,6 +103,37 @@ def input_object(year, name):
     return cat.inputs.get(name)
 
 
+_DESC = {}
+
+
+def quoted_lines_exist(year, prompt_text):
+    """the 'Additional input is needed by:' list of the command-line prompt: every quoted (form description, instance,
+    line) must be a line of a form with that description and instance; returns the ones that are not"""
+    import habutax.forms as hforms
+    if year not in _DESC:
+        _DESC[year] = {}
+        for cls in hforms.available_forms[year]:
+            _DESC[year].setdefault(f'{cls.description}: {cls.long_description}', []).append(cls)
+    cat = catalog.get(year)
+    bad = []
+    for line in prompt_text.splitlines():
+        m = re.match(r"^ \* (?:Instance '(?P<inst>[^']*)' of )?(?P<desc>.*), line '(?P<base>[^']*)'$", line)
+        if not m:
+            continue
+        ok = False
+        for cls in _DESC[year].get(m.group('desc'), []):
+            fname = cls.form_name + (':' + m.group('inst') if m.group('inst') else '')
+            try:
+                cat.ensure(fname)
+            except Exception:
+                continue
+            if f'{fname}.{m.group("base")}' in cat.lines:
+                ok = True
+        if not ok:
+            bad.append(line.strip())
+    return bad
+
+
 def answer_text(data, year, name, answers, percent_ok=True):
     if name in answers:
         return answers[name]
@@ -167,6 +198,9 @@ def history(ctx, data, sc, nops):
                     asked.append(('?', ptxt))
                     return cli.Script.INT
                 name = m.group(1)
+                bad_quote = quoted_lines_exist(year, ptxt)
+                if bad_quote:
+                    ctx.violation('hist:prompt-quotes-nonexistent-line', f'the prompt for {name} says it is needed by {bad_quote[:3]}, which are not lines of the forms they are attributed to', case)
                 if interrupt_after is not None and len([a for a in asked if a[0] != '?']) >= interrupt_after:
                     asked.append((name, None))
                     return cli.Script.INT
